@@ -576,6 +576,13 @@ def run(ctx):
             ctx.violation("proof_broken", ", ".join(pr["broken"]) or "Circuit build",
                           {"log": pr["log"][-4000:]}, signature="proof", failing_input=False)
 
+    # switch stage: the at-most-once clauses on the RUNNING switch (three-hop fixture with restarts,
+    # disconnects in the middle of a forwarding batch, forwards bounced by the outgoing link); the
+    # harness and the predicate live in props/c08.py, coverage is nested under cov["switch_stage"]
+    if not ctx.replay and not os.environ.get("VERIF_C07_NO_SWITCH_STAGE"):
+        from props import c08 as _c08
+        _c08.run_switch_stage(ctx)
+
     ops, outs, modes, dfails = hist(allrows)
     nsteps = sum(len(c["steps"]) for c in allrows)
     ctx.cov.update({
